@@ -174,6 +174,9 @@ pub struct WorldCfg {
     pub hz: Option<u8>,
     pub multi: bool,
     pub cross_check: bool,
+    /// `MultiProgress::set_move_cursor(true)`: frames are overwritten in place instead of cleared first
+    /// (only used where the screen oracles are off)
+    pub move_cursor: bool,
 }
 
 // ------------------------------------------------------------------------------------------
@@ -374,7 +377,11 @@ impl World {
                 Some(hz) => ProgressDrawTarget::term_like_with_hz(spy.boxed(), hz),
                 None => ProgressDrawTarget::term_like(spy.boxed()),
             };
-            Some(MultiProgress::with_draw_target(target))
+            let mp = MultiProgress::with_draw_target(target);
+            if cfg.move_cursor {
+                mp.set_move_cursor(true);
+            }
+            Some(mp)
         } else {
             None
         };
